@@ -90,10 +90,12 @@ func (k Keeper) lock(ctx context.Context, target common.Address, coins sdktypes.
 			}
 		}
 
-		// update power ranking
-		if err := k.PowerRanking.Set(ctx,
-			collections.Join(validator.Power, valdtAddr)); err != nil {
-			return err
+		// update power ranking, a validator without power is not a candidate
+		if validator.Power > 0 {
+			if err := k.PowerRanking.Set(ctx,
+				collections.Join(validator.Power, valdtAddr)); err != nil {
+				return err
+			}
 		}
 		k.Logger().Info("Lock", "validator", types.ValidatorName(valdtAddr), "power", validator.Power)
 	case types.Downgrade:
@@ -125,9 +127,11 @@ func (k Keeper) lock(ctx context.Context, target common.Address, coins sdktypes.
 				}
 			}
 
-			if err := k.PowerRanking.Set(ctx,
-				collections.Join(validator.Power, valdtAddr)); err != nil {
-				return err
+			if validator.Power > 0 {
+				if err := k.PowerRanking.Set(ctx,
+					collections.Join(validator.Power, valdtAddr)); err != nil {
+					return err
+				}
 			}
 			k.Logger().Info("Unjail", "validator", types.ValidatorName(valdtAddr), "power", validator.Power)
 		}
